@@ -41,7 +41,7 @@ func (h *Heap) declare(key, sort string) {
 	h.sorts[key] = sort
 	h.order = append(h.order, key)
 	if nf := h.nilFacts(key, h.vc.Global("H0:"+key, sort)); nf != "true" {
-		h.vc.Fact(nf)
+		h.vc.FactFor(sym("H0:"+key), nf)
 	}
 }
 
@@ -221,11 +221,13 @@ func (h *Heap) load(s *State, p Val, t types.Type) Val {
 	return h.vc.buildVal(t, "", func(path string, lt types.Type) string {
 		key, sort := h.cellKeySort(p.P, path, lt)
 		cur := h.get(s, key, sort)
+		// loaded values are named (hash-consed), so that the same location read by the
+		// code and by a spec expression is literally the same term
 		switch p.P.Kind {
 		case ptrObj:
-			return Select(cur, p.S)
+			return h.vc.Def("ld", h.vc.sortOf(lt), Select(cur, p.S))
 		case ptrElem:
-			return Select(Select(cur, p.S), p.P.Idx)
+			return h.vc.Def("ld", h.vc.sortOf(lt), Select(Select(cur, p.S), p.P.Idx))
 		default:
 			return cur
 		}
@@ -258,7 +260,20 @@ func (h *Heap) newObj(s *State, t types.Type, zero bool) Val {
 	h.set(s, allocKey, "Int", app("+", a, "1"))
 	p := Val{T: types.NewPointer(t), S: ref, P: &Ptr{Kind: ptrObj, Root: t}}
 	if zero {
-		h.store(s, p, h.vc.zeroVal(t))
+		// protobuf-internal bookkeeping fields (state, sizeCache, unknownFields) are never
+		// read by NRI code; leaving them unconstrained is a sound over-approximation and
+		// keeps dozens of irrelevant heap variables out of every query
+		eachLeaf(h.vc.zeroVal(t), "", func(path string, lv Val) {
+			top := path
+			if k := strings.IndexAny(path, ".#"); k >= 0 {
+				top = path[:k]
+			}
+			if top == "state" || top == "sizeCache" || top == "unknownFields" {
+				return
+			}
+			key, sort := h.cellKeySort(p.P, path, lv.T)
+			h.set(s, key, sort, Store(h.get(s, key, sort), p.S, lv.S))
+		})
 	}
 	return p
 }
@@ -307,8 +322,9 @@ func (h *Heap) mapRaw(s *State, m Val, k string) Val {
 // mapGet is Go's m[k]: zero value when absent.
 func (h *Heap) mapGet(s *State, m Val, k string) Val {
 	mi := h.mapInfo(m.T)
-	has := h.mapHas(s, m, k)
-	return h.vc.iteVal(has, h.mapRaw(s, m, k), h.vc.zeroVal(mi.m.Elem()))
+	has := h.vc.Def("has", "Bool", h.mapHas(s, m, k))
+	v := h.vc.iteVal(has, h.mapRaw(s, m, k), h.vc.zeroVal(mi.m.Elem()))
+	return h.nameLeaves("mg", v)
 }
 
 func (h *Heap) mapSet(s *State, m Val, k string, v Val) {
@@ -384,4 +400,20 @@ func (h *Heap) newArray(s *State) string {
 	ref := h.vc.Def("newarr", "Int", a)
 	h.set(s, allocKey, "Int", app("+", a, "1"))
 	return ref
+}
+
+func (h *Heap) nameLeaves(prefix string, v Val) Val {
+	if len(v.Fs) > 0 {
+		out := Val{T: v.T, Fs: make([]Val, len(v.Fs)), P: v.P}
+		for i := range v.Fs {
+			out.Fs[i] = h.nameLeaves(prefix, v.Fs[i])
+		}
+		return out
+	}
+	if v.T == nil || v.S == "" {
+		return v
+	}
+	out := v
+	out.S = h.vc.Def(prefix, h.vc.sortOf(v.T), v.S)
+	return out
 }
